@@ -103,10 +103,24 @@ def node_of(x, with_oid=False):
         }
         return _common(d, x, with_oid)
     if isinstance(x, Array):
+        items = list(public_items(x))
+        # the model's `array` node lists the entries `prior_i_j` in index order (that is where the instance puts them);
+        # an array filled entry by entry holds them in assignment order: listed in index order here when no two entries
+        # are the same parameter (the order of the places of ONE parameter is the only thing the walk order decides)
+        entries = [(k, v) for k, v in items if str(k).startswith("prior_")]
+        ids = [v.id for _, v in entries if isinstance(v, Prior)]
+        if len(set(ids)) == len(ids):
+            def index_of(kv):
+                try:
+                    return tuple(int(t) for t in str(kv[0]).split("_")[1:])
+                except ValueError:
+                    return ()
+            ordered = iter(sorted(entries, key=index_of))
+            items = [next(ordered) if str(k).startswith("prior_") else (k, v) for k, v in items]
         d = {
             "k": "array",
             "shape": [int(s) for s in x.shape],
-            "attrs": [[k, node_of(v, with_oid)] for k, v in public_items(x)],
+            "attrs": [[k, node_of(v, with_oid)] for k, v in items],
         }
         return _common(d, x, with_oid)
     if isinstance(x, Collection):
